@@ -378,11 +378,11 @@ def impl_env():
     return env
 
 
-def run_impl(script, payload, timeout=900):
+def run_impl(script, payload, timeout=900, env_extra=None):
     """Run tools/impl/<script> under the repo's interpreter with JSON on stdin -> JSON from stdout."""
     path = os.path.join(VERIF, 'tools', 'impl', script)
     p = subprocess.run(['timeout', str(timeout), impl_python(), path], input=json.dumps(payload), text=True,
-                       stdout=subprocess.PIPE, stderr=subprocess.PIPE, env=impl_env(), cwd='/')
+                       stdout=subprocess.PIPE, stderr=subprocess.PIPE, env=dict(impl_env(), **(env_extra or {})), cwd='/')
     if p.returncode != 0:
         raise RuntimeError(f'implementation runner {script} failed rc={p.returncode}: {p.stderr[-3000:]}')
     return json.loads(p.stdout)
